@@ -36,7 +36,11 @@ ASSUMPTIONS = ['rotation inputs are dyadic rationals so that % 360 is exact, exc
                '360 (judged: in [0, 360) and within 2^-40 of the residue on the '
                'circle)',
                'what a listener reads from the transform *during* the '
-               'notification is recorded but not judged (not in the statement)']
+               'notification is recorded but not judged (not in the statement)',
+               'a listener that assigns a property of the transform that is '
+               'notifying it: judged over the whole operation (once per '
+               'assignment and listener, with the stored values, in any '
+               'order), not notification by notification']
 
 PROPS = ('position', 'rotation', 'scale')
 EVENTS = {'position': 'on_position_change', 'rotation': 'on_rotation_change',
@@ -112,6 +116,16 @@ def gen_one(rng, tier):
             prop = rng.choice(listeners[li]['events'])
             chains.append([li, target, prop,
                            _value(rng, transforms[target]['dim'], prop)])
+    if listeners and not chains and rng.random() < 0.15:
+        # ... or assign a property of the SAME transform it was notified by
+        # (a clamping listener): [listener, transform, prop it reacts to,
+        # value, prop it assigns]
+        li = rng.randrange(len(listeners))
+        t = rng.choice(listeners[li]['on'])
+        prop = rng.choice(listeners[li]['events'])
+        prop2 = rng.choice(PROPS)
+        chains.append([li, t, prop,
+                       _value(rng, transforms[t]['dim'], prop2), prop2])
     return {'transforms': transforms, 'listeners': listeners, 'ops': ops,
             'chains': chains,
             # value-like listeners: distinct listeners that compare and hash
@@ -151,7 +165,24 @@ def run_case(case):
         for prop in events:
             def cb(self, value, _prop=prop):
                 log.append((self.uid, _prop, value))
-                for li, target, cprop, raw in case.get('chains', []):
+                for chain in case.get('chains', []):
+                    if len(chain) == 5:
+                        li, target, cprop, raw, prop2 = chain
+                        if li == self.uid and cprop == _prop \
+                                and not same_busy[0] \
+                                and transforms[target] is current[0]:
+                            # assignment on the transform that is notifying
+                            same_busy[0] = True
+                            t2 = transforms[target]
+                            v2 = _mk(desper, case['transforms'][target]['dim'],
+                                     raw)
+                            if isinstance(v2, list):
+                                v2 = tuple(v2)
+                            setattr(t2, prop2, v2)
+                            same.append((target, prop2, getattr(t2, prop2)))
+                            same_busy[0] = False
+                        continue
+                    li, target, cprop, raw = chain
                     if li == self.uid and cprop == _prop:
                         # nested assignment on another transform; its own
                         # notifications are judged separately
@@ -179,6 +210,9 @@ def run_case(case):
     classes = {2: desper.Transform2D, 3: desper.Transform3D}
     transforms = []
     nested = []         # (transform, prop, read-back, notifications)
+    same = []           # assignments made on the notifying transform itself
+    same_busy = [False]
+    current = [None]    # transform whose assignment is being judged
     for spec in case['transforms']:
         dim = spec['dim']
         kwargs = {p: _mk(desper, dim, v) for p, v in spec['ctor'].items()}
@@ -215,6 +249,10 @@ def run_case(case):
         listeners.append(obj)
         for t in spec['on']:
             transforms[t].add_handler(obj)
+            if (uid + t + len(case['ops'])) % 4 == 0:
+                # registering a listener twice does not duplicate anything
+                transforms[t].add_handler(obj)
+                res.tags['listener_registered_twice'].add(True)
 
     nontrivial = False
     for at, (ti, prop, raw, aug) in enumerate(case['ops']):
@@ -224,6 +262,8 @@ def run_case(case):
         snapshot = [[getattr(x, p) for p in PROPS] for x in transforms]
         del log[:]
         del nested[:]
+        del same[:]
+        current[0] = t
         if aug:
             assigned = t.rotation + value
             t.rotation += value
@@ -234,6 +274,63 @@ def run_case(case):
         res.stats['assignments'] += 1
         res.tags['prop_dim'].add(f'{prop}/{dim}')
 
+        if same:
+            # A listener assigned a property of the notifying transform.
+            # Whether the inner notifications run inside the outer ones or
+            # after them is not stated: over the whole operation every
+            # listener of a property is told once per assignment to it, with
+            # the values those assignments stored (any order), and the
+            # last assignment decides what the property reads.
+            res.stats['same_transform_assignments_checked'] += len(same)
+            stored = {prop: [back if not same or same[0][1] != prop
+                             else None]}
+            per_prop = {prop: [assigned if not (prop == 'rotation'
+                                                and dim == 2) else None]}
+            for _, p2, back2 in same:
+                per_prop.setdefault(p2, []).append(back2)
+            good = True
+            for p2, values in per_prop.items():
+                for uid, spec in enumerate(case['listeners']):
+                    if ti not in spec['on'] or p2 not in spec['events']:
+                        continue
+                    got_v = [v for u, p, v in log if u == uid and p == p2]
+                    if len(got_v) != len(values):
+                        res.div(at, 'same-transform-notification-count',
+                                f'listener {uid} of {p2}: number of '
+                                'notifications over an assignment during '
+                                'which a listener assigned the same '
+                                'transform again', len(values), len(got_v),
+                                values=[repr(v) for v in got_v])
+                        good = False
+                        break
+                    known = [v for v in values if v is not None]
+                    if any(not any(g == k for g in got_v) for k in known):
+                        res.div(at, 'same-transform-notification-value',
+                                f'listener {uid} of {p2} was not told the '
+                                'values the assignments stored',
+                                [repr(v) for v in known],
+                                [repr(v) for v in got_v])
+                        good = False
+                        break
+                if not good:
+                    break
+            for p2 in per_prop:
+                if p2 != prop or same[-1][1] == prop:
+                    last = [b for _, q, b in same if q == p2]
+                    if last and not (getattr(t, p2) == last[-1]):
+                        res.div(at, 'value-not-stored', f'{p2} after nested '
+                                'assignments on the same transform',
+                                repr(last[-1]), repr(getattr(t, p2)))
+                        good = False
+            extra = [e for e in log if e[1] not in per_prop]
+            if good and extra:
+                res.div(at, 'other-event-notified', 'an event of a property '
+                        'nobody assigned was notified', None,
+                        [list(map(repr, e)) for e in extra[:3]])
+            if res.divs:
+                break
+            nontrivial = True
+            continue
         # what was stored
         if prop == 'rotation' and dim == 2:
             try:
